@@ -6,7 +6,7 @@
     [hl fn p], [hs fn p]: the saturated liquid / steam enthalpies u + p / d the code forms at pressure p. *)
 From Coq Require Import ZArith QArith Qreals Reals List Bool.
 From Gen Require Import GenThermo GenTraced.
-From P Require Import Expr Common Steam SteamEnds.
+From P Require Import Expr Common Steam SteamEnds SteamStages.
 Import ListNotations.
 Close Scope Q_scope.
 Open Scope R_scope.
@@ -31,3 +31,17 @@ Theorem steam_fraction_mass_balance_2 : forall (fn : fnR) (coef : nat -> R) (h p
              (1 - lever h (hl fn p1) (hs fn p1)) * lever (hl fn p1) (hl fn p2) (hs fn p2)).
 Proof. exact ssf2_mass_balance. Qed.
 Print Assumptions steam_fraction_mass_balance_2.
+
+(** ** two stages vs one (SteamStages.v): a second separator at the same pressure changes nothing ... *)
+Theorem steam_fraction_second_stage_at_same_pressure : forall (fn : fnR) (coef : nat -> R) (h p1 : R),
+  hl fn p1 < hs fn p1 -> ssf2 fn coef h p1 p1 = ssf1 fn coef h p1.
+Proof. exact ssf2_same_pressure. Qed.
+Print Assumptions steam_fraction_second_stage_at_same_pressure.
+
+(** ... and a second separator whose liquid enthalpy is not above the first one's (its steam enthalpy not
+    below the first-stage liquid's) never yields less steam than the first stage alone *)
+Theorem steam_fraction_second_stage_never_loses : forall (fn : fnR) (coef : nat -> R) (h p1 p2 : R),
+  hl fn p1 < hs fn p1 -> hl fn p2 < hs fn p2 -> hl fn p2 <= hl fn p1 <= hs fn p2 ->
+  ssf1 fn coef h p1 <= ssf2 fn coef h p1 p2.
+Proof. exact ssf2_ge_ssf1. Qed.
+Print Assumptions steam_fraction_second_stage_never_loses.
